@@ -75,3 +75,17 @@ where
         _ = self.cons.push(data).await;
     }
 }
+
+#[cfg(all(transparencies_stretto_verif, feature = "sync"))]
+impl<S> RingStripe<S> {
+    pub(crate) fn verif_len(&self) -> usize {
+        self.data.lock().len()
+    }
+}
+
+#[cfg(all(transparencies_stretto_verif, feature = "async"))]
+impl<S> AsyncRingStripe<S> {
+    pub(crate) fn verif_len(&self) -> usize {
+        self.data.lock().len()
+    }
+}
